@@ -87,6 +87,9 @@ NoRevisit == \A i, j \in 1..Len(path) : i # j => path[i] # path[j]
 PrevIsPath == prev = {path[i] : i \in 1..Len(path)} /\ tree = path[Len(path)]
 LimitRollback == \A n \in 1..2 : hit[n] => res[n] = (IF n = 1 THEN 0 ELSE res[1])
 Adopts(h) == {i \in 1..Len(h) : h[i].out = "adopt"}
+\* consequence of the Sticky quirk: every rule of the post phase already ran, unchanged, in the last main-phase loop,
+\* so the post phase never adopts anything (it is dead code today; its 2-loop limit cannot be hit)
+PostPhaseIdle == Sticky => \A n \in 1..2 : \A i \in Adopts(hist[n]) : hist[n][i].ph = "main"
 IdempotentIfAcyclic == pc = "done" => (IdemHyp => res[2] = res[1] /\ Adopts(hist[2]) = {})
 \* Expected NON-invariants (run with expect_violation): what each hypothesis is for
 IdempotentIfNoLimit == pc = "done" => ((~hit[1] /\ AllFixersCompat /\ (Sticky \/ PostClosed)) => res[2] = res[1])   \* drops Acyclic: rule oscillation
@@ -99,7 +102,7 @@ RulesOfPhase(ph) == SelectSeq([i \in R |-> i], LAMBDA r : phs[r] = ph)
 RulesThisPhase == IF allrules THEN [i \in R |-> i] ELSE RulesOfPhase(phase)
 Bound == IF phase = "main" THEN limit ELSE 2
 First == phase = "main" /\ loop = 0              \* is_first_linter_pass()
-Note(r, out) == hist' = [hist EXCEPT ![run] = Append(@, [r |-> r, tree |-> tree, out |-> out])]
+Note(r, out) == hist' = [hist EXCEPT ![run] = Append(@, [r |-> r, tree |-> tree, out |-> out, ph |-> phase])]
 
 StartRun(n, v) ==
   /\ run' = n /\ pc' = "head" /\ phase' = "main" /\ loop' = 0 /\ allrules' = FALSE /\ ri' = 1
